@@ -1,4 +1,8 @@
-"""Per-property configuration of ./check (trusted base, clause meanings, harness names)."""
+"""Configuration of ./check: allowed axioms, common trusted base, and the
+per-property settings loaded from conf/Cxx.json."""
+import glob, json, os
+
+ROOT = os.path.dirname(os.path.abspath(__file__))
 
 ALLOWED_AXIOMS = [
     # standard-library axioms only; each is named in the evidence if it ever appears
@@ -13,32 +17,6 @@ COMMON_TRUSTED = [
     "go1.23.5 toolchain and runtime",
 ]
 
-PROPS = {
-    "C12": {
-        "harness": "c12",
-        "level_text": "Theorems for every roster size, branching factor >= 1, root and node count: closed-form shape of the n-ary "
-                      "generator (hence one node per member, <= N children, breadth-first filling, requested root), node count of the "
-                      "big generator, no tree for a foreign root; node-id distinctness relative to an injective id function, with the "
-                      "pinned code's repetition recorded as known finding F14. The Gallina loops are run against the Go generators on "
-                      "every check (exhaustive for small sizes, sampled above).",
-        "level_note": "Trusted: Coq kernel + vm_compute; hand-written model tied by correspondence only; harness; kyber/uuid for node ids.",
-        "model": "Tree/Gen.v: gen_nary, gen_big",
-        "clauses": {
-            "1": "not a well-formed tree (parent links, breadth-first order, roster positions, <= N children)",
-            "2": "wrong number of nodes / not one node per roster member",
-            "3": "levels not filled breadth-first",
-            "4": "node count = roster size but some member unused",
-            "5": "two nodes on different servers share a node identifier",
-            "6": "node identifiers repeat because a server occupies several nodes",
-            "7": "root is not the requested root",
-            "8": "a root outside the roster yields a tree",
-            "9": "crash / nil on a legal input",
-        },
-        "trusted": ["kyber Ed25519 key generation and uuid.NewSHA1 (node ids are observed, not modelled: "
-                    "the model states distinctness relative to an injective id function)"],
-        "assumptions": ["N >= 1, roster non-empty, nodes >= 1 (outside: N = 0 crashes the n-ary generator, recorded in DESIGN.md)",
-                        "host equality is Address.Host() string equality, abstracted to a host index"],
-        "explanation": "theorems over all roster sizes / branching factors / roots / node counts; "
-                       "correspondence = the Go generators and the Gallina loops on the same inputs",
-    },
-}
+PROPS = {}
+for f in sorted(glob.glob(os.path.join(ROOT, "conf", "C*.json"))):
+    PROPS[os.path.basename(f)[:-5]] = json.load(open(f))
